@@ -16,6 +16,8 @@
 #include "rep_of.h"
 #include "tag_of.h"
 
+#include <utility>
+
 /// compositional numeric library
 namespace cnl {
 
@@ -155,7 +157,7 @@ namespace cnl {
             [[nodiscard]] constexpr auto exp2(
                     scaled_integer<Rep, power<Exponent>> const& x, Rep const& floored)
             {
-                return floored <= Exponent
+                return std::cmp_less_equal(floored, Exponent)
                              ? rep_of_t<Intermediate>{1}  // return immediately if the shift would
                              // result in all bits being shifted out
                              // Do the shifts manually. Once the branch with shift operators is
